@@ -7,9 +7,12 @@
    expression and checks the algebraic laws of the specification on each one.
    RunSpec: programs import sets drawn from MCSets one after the other and refer to names. *)
 EXTENDS ImportRun
-CONSTANTS MaxDepth, MaxIds, Pfx, Pool, MaxTicks, StartLibs
-VARIABLES e, d
+CONSTANTS MaxDepth, MaxIds, Pfx, Pool, MaxTicks, StartLibs, CopyImmediates, MaxEnvs
+VARIABLES e, d,
+          lcells,   \* (RunSpec) lcells[l] : frame of the instantiated library l : identifier in its scope -> cell
+          envs      \* (RunSpec) live importers created so far: [sets, immut, cells]
 bvars == <<e, d>>
+ovars == <<lcells, envs>>
 
 P == Prefix(Lib(1), "p")
 SmallGraph == <<
@@ -39,7 +42,7 @@ WrapsK(x, k) ==
    CASE k = 1 -> {Only(x, SetToSeq(X)) : X \in Small(D)}
      [] k = 2 -> {Except(x, SetToSeq(X)) : X \in Small(D)}
      [] k = 3 -> {Rename(x, <<<<a, b>>>>) : a \in D, b \in Pool \ D}
-     [] k = 4 -> {Rename(x, <<<<pr[1], pr[2]>>, <<pr[2], pr[1]>>>>) : pr \in {q \in D \X D : q[1] # q[2]}}      \* swap
+     [] k = 4 -> {Rename(x, <<<<sq[1], sq[2]>>, <<sq[2], sq[1]>>>>) : sq \in {SetToSeq(X) : X \in {Y \in SUBSET D : Cardinality(Y) = 2}}}   \* swap
      [] k = 5 -> {Rename(x, <<<<pr[1], pr[2]>>, <<pr[2], b>>>>) : pr \in {q \in D \X D : q[1] # q[2]}, b \in Pool \ D}   \* chain
      [] k = 6 -> {Prefix(x, p) : p \in Pfx}
      [] k = 7 -> {Drop(x, p) : p \in {q \in Pfx : D # {} /\ \A m \in D : HasPrefix(m, q)}}
@@ -48,7 +51,7 @@ Wraps(x) == UNION {WrapsK(x, k) : k \in WKinds}
 
 BInit == /\ d = 0 /\ e \in {Lib(l) : l \in StartLibs}
 BNext == /\ d < MaxDepth /\ d' = d + 1 /\ e' \in Wraps(e)
-BuildSpec == BInit /\ RInit /\ [][BNext /\ UNCHANGED <<rvars, tab>>]_<<bvars, rvars, tab>>     \* (lcells, envs are not part of this machine)
+BuildSpec == BInit /\ RInit /\ lcells = <<>> /\ envs = <<>> /\ [][BNext /\ UNCHANGED <<rvars, tab, ovars>>]_<<bvars, rvars, tab, ovars>>
 
 (* ---------------- laws of the specification itself ---------------- *)
 Univ(x) == LET B == GraphNamesG(tab) \cup Pool \cup Dom(x)
@@ -96,10 +99,6 @@ LawSwap == LET M == N(e)
    exporting library's own frame - <<"loc", b>> (an alias of location b) - never to a value.  CopyImmediates = TRUE
    is the tempting shortcut "an immutable import of an immediate constant cannot change, bind the value":
    the model checker shows that SameLocation then fails as soon as the exporter assigns its variable. *)
-CONSTANTS CopyImmediates, MaxEnvs
-VARIABLES lcells,   \* lcells[l] : frame of the instantiated library l : identifier in its scope -> cell
-          envs      \* live importers created so far: [sets, immut, cells]
-ovars == <<lcells, envs>>
 NoCells == <<>>
 \* visible name -> exported name of the base library (the association list an import set resolves to)
 IdTab == [l \in Libs |-> [x \in {p[1] : p \in Rng(Graph[l].exports)} |-> <<l, x>>]]
@@ -115,7 +114,8 @@ ReadCell(c) == IF c[1] = "loc" THEN Cur(c[2]) ELSE c[2]
 
 MCSets == { <<Lib(1)>>, <<Lib(2)>>, <<Lib(3)>>, <<Prefix(Lib(2), "q:"), Only(Lib(1), <<"o">>)>>,
             <<Rename(Lib(3), <<<<"t2", "t">>>>), Only(Lib(2), <<"t", "bp">>)>> }
-MCNames == {"a", "o", "x", "y", "t", "t2", "q:t", "g", "m", "pm", "i", "h1", "pb", "r", "rr", "rf", "rl", "bp", "q:bp", "q:r", "f"}
+MCNames == {"a", "o", "y", "t", "t2", "q:t", "g", "pm", "i", "pb", "r", "rr", "rf", "rl", "bp", "q:bp", "f"}
+BatchNames == {"o", "t", "r", "rl", "bp", "f"}
 Keep == UNCHANGED <<bvars, tab>>
 DoBegin == Keep /\ Len(envs) < MaxEnvs /\ UNCHANGED ovars /\ \E s \in MCSets : BeginImport(s)
 \* the library's frame: its own definitions and what its import declarations bring (libraries import immutably)
@@ -142,7 +142,7 @@ SameLocation ==
    /\ \A k \in DOMAIN envs :
          LET V == VisibleG(tab, envs[k].sets) IN
          /\ DOMAIN envs[k].cells = DOMAIN V
-         /\ \A n \in DOMAIN V : ReadCell(envs[k].cells[n]) = Cur(V[n]) \/ Kind(V[n]) # "var"
+         /\ \A n \in DOMAIN V : Kind(V[n]) = "var" => ReadCell(envs[k].cells[n]) = Cur(V[n])
          /\ \A n \in DOMAIN V : envs[k].cells[n][1] = "loc" => envs[k].cells[n][2] = V[n]
    /\ \A l \in Libs : inst[l] = 1 =>
          /\ DOMAIN lcells[l] = DefNames(l) \cup DOMAIN ImportedG(SubSeq(tab, 1, l - 1), l)
@@ -157,7 +157,7 @@ SeqExpected(vis, tk, vs, ns) ==
    ELSE <<Expected(vis, tk, vs, Head(ns))>> \o
         SeqExpected(vis, Bumped(tk, "tick", Effect(vis, Head(ns))), Bumped(vs, "ver", Effect(vis, Head(ns))), Tail(ns))
 LawBatch == phase = "ready" =>
-               \A ns \in UNION {[1..k -> MCNames] : k \in 0..2} :
+               \A ns \in UNION {[1..k -> BatchNames] : k \in 0..2} :
                    BatchExpected(Vis, ticks, vers, ns) = SeqExpected(Vis, ticks, vers, ns)
 \* two names for one binding behave alike: same value, same counter
 LawShared == phase = "ready" =>
